@@ -2,11 +2,14 @@
 # tools/eval_mutants.sh <out.jsonl> <tier> <dir>...   — apply each mutant to /repo, run its property's check, undo.
 out=$1; tier=$2; shift 2
 cd /verif
-for d in "$@"; do
+for arg in "$@"; do
+  d=${arg%%:*}; over=""; [ "$arg" != "$d" ] && over=${arg##*:}
+  patch="$d/patch.diff"; [ -f "$d/patch.ported.diff" ] && patch="$d/patch.ported.diff"
   id=$(python3 -c "import json,sys; print(json.load(open('$d/meta.json'))['property'])" 2>/dev/null)
   [ -z "$id" ] && id=$(basename $(dirname $d) | cut -c1-3)
-  if ! git -C /repo apply --check "$d/patch.diff" 2>/dev/null; then echo "{\"dir\":\"$d\",\"property\":\"$id\",\"error\":\"patch does not apply\"}" >> $out; continue; fi
-  git -C /repo apply "$d/patch.diff"
+  [ -n "$over" ] && id=$over
+  if ! git -C /repo apply --check "$patch" 2>/dev/null; then echo "{\"dir\":\"$d\",\"property\":\"$id\",\"error\":\"patch does not apply\"}" >> $out; continue; fi
+  git -C /repo apply "$patch"
   t0=$(date +%s)
   bin/check $id $tier > /tmp/eval.$$.out 2>&1; rc=$?
   t1=$(date +%s)
